@@ -76,4 +76,8 @@ claim('C18', 'model_checking', 'tlc-emit-replay', 'TLA+ spec NixUnits (+ NixRetr
       'The exponent algebra (Reciprocal/Compose/Symmetric/Identity/Unambiguous) is checked by TLC over all prefixes and powers; every scalable pair '
       '(21x21x31x7), sampled non-scalable pairs and non-SI strings are executed; the retrieval case tables are replayed with requests in a prefixed unit.',
       'Trusted: TLC, harness/h_units.cpp, h_retr.cpp. Factor compared with 10^k to 1e-12 relative; only exactly rescalable requests are used; powers -3..3.', 'DESIGN.md section 5 (C18)')
+claim('C20', 'model_checking', 'tlc-emit-replay', 'TLA+ spec NixFile (query section) + TLC (invariants in every reachable state) + replay of every query per state',
+      'SearchEqualsBruteForce/BreadthFirst/BackRefsEqualBruteForce hold in every reachable state of the design; in every reachable state of the tree '
+      'universes every query (start x filter x depth) is executed and compared with the specification (sequence for single-root searches, multiset otherwise).',
+      FILE_NOTE + ' Trees up to 5-6 nodes (creations bound), depths 0..3 and unlimited, 2 names, 2 types; findRelated is not covered.', 'DESIGN.md section 5 (C20)')
 ENGINES[0]['serves_properties'] = sorted(CLAIMED)
